@@ -73,7 +73,7 @@ def replay(pid, path):
     if cmd:
         subprocess.call("/verif/bin/build_harness.sh && cd /verif/work && /verif/harness/bin/" + cmd + " -out replay.txt -stats replay.json && /verif/ocaml/modelrun replay.txt | tail -3; python3 -c \"import json;print(json.load(open('replay.json'))['monitor_failures'])\"", shell=True)
 
-HOOK_COMMITS = ["5aa5cc2", "022b891"]
+HOOK_COMMITS = ["5aa5cc2", "022b891", "48f2d61"]
 NOT_YET = {}
 TB = ("Trusted: Coq kernel + vm_compute; no axioms (Print Assumptions checked each run); extraction ExtrOcamlBasic+ExtrOcamlZBigInt cross-checked by "
       "vm_compute on a sample each run; translators (harness/cmd/xlate), Go harness, OCaml driver; the Go source is modelled, tied by regenerated "
